@@ -55,6 +55,7 @@ func (f PicklerFunc) Pickle(x starlark.Value) (module, name string, args starlar
 type Encoder struct {
 	w       writer
 	memo    map[starlark.Value]int
+	next    int // number of MEMOIZE opcodes written so far: the decoder's len(d.memo)
 	pickler Pickler
 }
 
@@ -78,8 +79,8 @@ func (e *Encoder) memoized(x starlark.Value) (int, bool) {
 
 func (e *Encoder) memoize(x starlark.Value) {
 	if reflect.TypeOf(x).Comparable() {
-		id := len(e.memo)
-		e.memo[x] = id
+		e.memo[x] = e.next
+		e.next++
 
 		e.w.WriteByte(opMEMOIZE)
 	}
